@@ -22,6 +22,7 @@ const (
 	One
 	In      // bit Idx of byte Off of the receiver slice (Src == "") or of parameter Src
 	Unknown // not expressible
+	InNeg   // the complement of the In bit with the same coordinates
 )
 
 type Bit struct {
@@ -171,7 +172,7 @@ func bitAnd(x, y Bit) Bit {
 		return y
 	case y.K == One:
 		return x
-	case x.K == In && y.K == In && x == y:
+	case (x.K == In || x.K == InNeg) && x == y:
 		return x
 	}
 	return Bit{K: Unknown}
@@ -192,6 +193,15 @@ func bitOr(x, y Bit) Bit {
 }
 
 func bitXor(x, y Bit) Bit {
+	flip := func(b Bit) Bit {
+		switch b.K {
+		case In:
+			b.K = InNeg
+		case InNeg:
+			b.K = In
+		}
+		return b
+	}
 	switch {
 	case x.K == Zero:
 		return y
@@ -199,6 +209,10 @@ func bitXor(x, y Bit) Bit {
 		return x
 	case x.K == One && y.K == One:
 		return Bit{}
+	case x.K == One && (y.K == In || y.K == InNeg):
+		return flip(y)
+	case y.K == One && (x.K == In || x.K == InNeg):
+		return flip(x)
 	case x.K == In && y.K == In && x == y:
 		return Bit{}
 	}
@@ -348,16 +362,22 @@ func (a Int) String() string {
 			}
 			parts = append(parts, fmt.Sprintf("?[%d:%d]", i, j+1))
 			i = j
-		case In:
+		case In, InNeg:
 			j := i
-			for j-1 >= 0 && a.B[j-1].K == In && a.B[j-1].Src == b.Src && a.B[j-1].Off == b.Off && int(a.B[j-1].Idx) == int(a.B[j].Idx)-1 {
+			for j-1 >= 0 && a.B[j-1].K == b.K && a.B[j-1].Src == b.Src && a.B[j-1].Off == b.Off && int(a.B[j-1].Idx) == int(a.B[j].Idx)-1 {
 				j--
 			}
 			name := fmt.Sprintf("b%d", b.Off)
+			if b.K == InNeg {
+				name = "~" + name
+			}
 			if b.Src != "" {
 				name = b.Src
 				if b.Off >= 0 {
 					name = fmt.Sprintf("%s.b%d", b.Src, b.Off)
+				}
+				if b.K == InNeg {
+					name = "~" + name
 				}
 			}
 			parts = append(parts, fmt.Sprintf("%s[%d:%d]@%d", name, b.Idx, a.B[j].Idx, j))
@@ -396,6 +416,8 @@ func (b Bool) vstr() string {
 					n = fmt.Sprintf("%s.b%d.%d", x.Src, x.Off, x.Idx)
 				}
 				bits = append(bits, n)
+			case InNeg:
+				bits = append(bits, fmt.Sprintf("~%sb%d.%d", x.Src, x.Off, x.Idx))
 			case Unknown:
 				bits = append(bits, "?")
 			}
@@ -860,6 +882,8 @@ type Eval struct {
 	Extern func(e *Eval, callee *ssa.Function, args []Val) (Val, bool)
 	// Inline restricts which module callees are evaluated in place (nil = all).
 	Inline func(callee *ssa.Function) bool
+	// Unroll allows a block to be revisited this many times on one path (loops with a concrete trip count).
+	Unroll int
 	nmake  int
 }
 
@@ -918,7 +942,7 @@ func (e *Eval) run(fn *ssa.Function, args []Val, depth int) []Ret {
 			out = append(out, Ret{Vals: []Val{Opaque{"path limit"}}, Path: "path limit"})
 			break
 		}
-		if w.visits[w.b] >= 1 {
+		if w.visits[w.b] >= 1+e.Unroll {
 			ws := append(w.f.writes, e.loopSummary(w.f, w.b)...)
 			out = append(out, Ret{Vals: []Val{Opaque{"loop"}}, Path: strings.Join(w.f.path, " "), Writes: ws, Loop: true})
 			continue
@@ -1165,8 +1189,8 @@ func (e *Eval) instr(f *frame, v ssa.Value, depth int) Val {
 		if !ok {
 			ln = UnknownInt("makelen")
 		}
-		e.nmake++
-		return Slice{Src: fmt.Sprintf("make%d", e.nmake), Fresh: true, Lo: ConstInt(0), Hi: ln}
+		// named by the allocation site, so that every path calls the buffer the same
+		return Slice{Src: fmt.Sprintf("make@%d", int(t.Pos())), Fresh: true, Lo: ConstInt(0), Hi: ln}
 	case *ssa.TypeAssert:
 		return Opaque{"typeassert"}
 	case *ssa.Lookup:
